@@ -55,8 +55,8 @@ theorem stoch_def (ops : Ops K) (x : Ctx K) (p : Nat) (input : String)
     (hc : x.reading input = .ok (.num cur))
     (hset : ∀ v cs, ops.setManaged "STOCH_data" v cs = .ok (w v cs))
     (hcalc : ∀ cs, ops.calcManaged "STOCH_d" cs = .ok (cd cs))
-    (hk : ∀ cs, ∃ ks, (Ctx.on x cs).reading (x.name ++ "_k") = .ok (.s ks))
-    (hdr : ∀ cs, ∃ ds, (Ctx.on x cs).reading (x.name ++ "_d") = .ok (.s ds)) :
+    (hk : ∀ v, ∃ ks, (Ctx.on x (w v x.cs)).reading (x.name ++ "_k") = .ok (.s ks))
+    (hdr : ∀ v1 v2, ∃ ds, (Ctx.on x (cd (w v2 (w v1 x.cs)))).reading (x.name ++ "_d") = .ok (.s ds)) :
     ∃ (st L H : Num K) (ks ds : Scalar K) (cs' : List (Candle K)),
       Calc.stoch ops x p input = .ok (.dict [("stoch", .num st), ("k", ks), ("d", ds)], cs') ∧
       st.toF = stochOf cur.toF L.toF H.toF ∧
@@ -83,8 +83,8 @@ theorem stoch_def (ops : Ops K) (x : Ctx K) (p : Nat) (input : String)
   simp only [pym_bind_ok, hL, hH, pym_pure, Ctx.num_of hc, Val.asNum_num]
   by_cases h0 : H.toF - L.toF = 0
   · have e : (H.sub L).eq (.int 0) = true := by rw [Num.eq_iff]; simpa using h0
-    obtain ⟨ks, hks⟩ := hk (w (sdict [("stoch", sc (fl 0))]) x.cs)
-    obtain ⟨ds, hds⟩ := hdr (cd (w (sdict [("stoch", sc (fl 0)), ("k", ks)]) (w (sdict [("stoch", sc (fl 0))]) x.cs)))
+    obtain ⟨ks, hks⟩ := hk (sdict [("stoch", sc (fl 0))])
+    obtain ⟨ds, hds⟩ := hdr (sdict [("stoch", sc (fl 0))]) (sdict [("stoch", sc (fl 0)), ("k", ks)])
     refine ⟨fl 0, L, H, ks, ds,
       cd (w (sdict [("stoch", sc (fl 0)), ("k", ks)]) (w (sdict [("stoch", sc (fl 0))]) x.cs)),
       ?_, by simp [stochOf, h0], hLs, ⟨jl, List.mem_range.1 hjl, hL2⟩,
@@ -94,9 +94,9 @@ theorem stoch_def (ops : Ops K) (x : Ctx K) (p : Nat) (input : String)
     rfl
   · have e : (H.sub L).eq (.int 0) = false := by rw [Num.eq_false_iff]; simpa using h0
     have hd : (H.sub L).toF ≠ 0 := by simpa using h0
-    obtain ⟨ks, hks⟩ := hk (w (sdict [("stoch", sc ((Num.flt ((cur.sub L).toF / (H.sub L).toF)).mul (.int 100)))]) x.cs)
-    obtain ⟨ds, hds⟩ := hdr (cd (w (sdict [("stoch", sc ((Num.flt ((cur.sub L).toF / (H.sub L).toF)).mul (.int 100))), ("k", ks)])
-      (w (sdict [("stoch", sc ((Num.flt ((cur.sub L).toF / (H.sub L).toF)).mul (.int 100)))]) x.cs)))
+    obtain ⟨ks, hks⟩ := hk (sdict [("stoch", sc ((Num.flt ((cur.sub L).toF / (H.sub L).toF)).mul (.int 100)))])
+    obtain ⟨ds, hds⟩ := hdr (sdict [("stoch", sc ((Num.flt ((cur.sub L).toF / (H.sub L).toF)).mul (.int 100)))])
+      (sdict [("stoch", sc ((Num.flt ((cur.sub L).toF / (H.sub L).toF)).mul (.int 100))), ("k", ks)])
     refine ⟨(Num.flt ((cur.sub L).toF / (H.sub L).toF)).mul (.int 100), L, H, ks, ds,
       cd (w (sdict [("stoch", sc ((Num.flt ((cur.sub L).toF / (H.sub L).toF)).mul (.int 100))), ("k", ks)])
         (w (sdict [("stoch", sc ((Num.flt ((cur.sub L).toF / (H.sub L).toF)).mul (.int 100)))]) x.cs)),
